@@ -3,7 +3,7 @@
    Histories as in C14.v (every sequence of AddBlock calls the node can make, any tree, any best choices). *)
 From Coq Require Import List NArith Bool Lia.
 From Verif Require Import Chain.Model Chain.Proofs Chain.ProofsWalk Chain.ProofsSys Chain.ProofsTx Chain.ProofsAccept
-  Chain.ProofsChainInv Chain.ProofsChainDep Chain.Examples.
+  Chain.ProofsChainInv Chain.ProofsChainDep Chain.Replay Chain.Examples.
 Import ListNotations.
 Open Scope N_scope.
 
@@ -99,6 +99,18 @@ Theorem accepted_chain_dependency g gp tag (U : txrec -> Prop) :
                            (num_of a' < num_of a \/ (a' = a /\ (i' < i)%nat)).
 Proof. intros Hg Hgp r R h Sh. exact (accepted_chain_dep_ok g gp tag U Hg Hgp r R h Sh). Qed.
 
+(* 8. the two lookup paths on ACCEPTED chains, with no premise left about the chain: on every history all of whose blocks
+      passed `validate` (ids determine bodies), for every head and every existing tx, HasTransaction with the tx's own
+      block ref, the indexed lookup and (when the head is within 100 blocks of the ref) the recent-window walk all give
+      the same answer, which is "the tx is on this head's chain". *)
+Theorem has_tx_paths_agree_on_accepted g gp tag (U : txrec -> Prop) :
+  (forall t1 t2, U t1 -> U t2 -> tx_id t1 = tx_id t2 -> t1 = t2) -> num_of g = 0 -> num_of gp = max_u32 ->
+  forall r, reachable g gp tag (accepted U) r -> forall h t, stored r h -> U t ->
+    exists v, has_transaction r h (tx_id t) (tx_ref t) = Ok v /\ has_tx_indexed r h (tx_id t) = Ok v /\
+              (tx_ref t <= num_of h -> num_of h - tx_ref t < 100 -> recent_walk r (tx_id t) (tx_ref t) 102 h = Ok v) /\
+              (v = true <-> exists a, incl_on r h (tx_id t) a).
+Proof. intros Uinj Hg Hgp r R h t. exact (accepted_paths_agree g gp tag U Uinj Hg Hgp r R h t). Qed.
+
 (* non-vacuity: tx 1001 sits on both siblings at height 2; each head finds its own copy, by both paths *)
 Example ex_c09 :
   reachable ex_g ex_gp ex_tag (fun _ _ _ => True) ex_r4 /\
@@ -130,6 +142,33 @@ Example ex_c09_dep :
   tx_at ex_r4 (bid 2 2) 1 ex_t2 (ex_rc true) /\ tx_dep ex_t2 = Some 1001 /\ tx_at ex_r4 (bid 2 2) 0 ex_t1 (ex_rc false).
 Proof. repeat split; try (eexists; eexists; vm_compute; repeat split). Qed.
 
+(* non-vacuity across the 100-block boundary and with a filter-key collision: a 105-block chain (every block passes
+   `validate`) with tx x1 at height 2; x2 shares x1's 8-byte filter key and is nowhere included.  From the tip
+   (105 - 1 >= 100) the indexed path answers, from height 100 (100 - 1 < 100) the recent-window walk; they agree; the
+   colliding id passes the filter test and is still reported absent. *)
+Definition deep_U (t : txrec) : Prop := t = deep_tx.
+Example ex_c09_deep :
+  reachable ex_g ex_gp ex_tag (fun _ _ _ => True) deep_repo /\
+  num_of (r_best deep_repo) = 105 /\ filter_key deep_x1 = filter_key deep_x2 /\
+  has_transaction deep_repo (bid 105 1) deep_x1 1 = Ok true /\ has_tx_indexed deep_repo (bid 105 1) deep_x1 = Ok true /\
+  has_transaction deep_repo (bid 101 1) deep_x1 1 = Ok true /\ has_transaction deep_repo (bid 100 1) deep_x1 1 = Ok true /\
+  recent_walk deep_repo deep_x1 1 102 (bid 100 1) = Ok true /\
+  has_transaction deep_repo (bid 1 1) deep_x1 1 = Ok false /\
+  memN (filter_key deep_x2) (r_filt deep_repo) = true /\ has_tx_indexed deep_repo (bid 105 1) deep_x2 = Ok false /\
+  has_transaction deep_repo (bid 105 1) deep_x2 1 = Ok false.
+Proof. split; [apply deep_reachable; intros; exact I|]. vm_compute. repeat split. Qed.
+
+(* ... and the deep chain is an ACCEPTED history (premise of 6-8 met beyond the window boundary) *)
+Example ex_c09_deep_accepted :
+  (forall t1 t2, deep_U t1 -> deep_U t2 -> tx_id t1 = tx_id t2 -> t1 = t2) /\
+  reachable ex_g ex_gp ex_tag (accepted deep_U) deep_repo.
+Proof.
+  split; [unfold deep_U; congruence|].
+  apply deep_reachable. intros r b best H. unfold deep_admb in H. apply andb_true_iff in H. destruct H as [H1 H2]. split.
+  - destruct (validate r b); try discriminate; reflexivity.
+  - intros t Ht. rewrite forallb_forall in H2. apply txrec_eqb_eq. exact (H2 t Ht).
+Qed.
+
 Print Assumptions conflicts_identify.
 Print Assumptions has_transaction_paths.
 Print Assumptions has_tx_paths_agree.
@@ -137,3 +176,4 @@ Print Assumptions get_tx_meta_on_chain.
 Print Assumptions accepted_block_step_partial.
 Print Assumptions accepted_chain_inv.
 Print Assumptions accepted_chain_dependency.
+Print Assumptions has_tx_paths_agree_on_accepted.
